@@ -393,6 +393,35 @@ func genConsts() string {
 			emitInt(fl.lean, v, rel+" flag default")
 		}
 	}
+	// agent: streaming-related settings of the handler chain and the forwarder
+	{
+		rel := "agent/agent.go"
+		f := parseFile(rel)
+		hp := mustFunc(f, rel, "", "hostProxy")
+		fi := int64(-1)
+		ast.Inspect(hp, func(n ast.Node) bool {
+			if a, ok := n.(*ast.AssignStmt); ok && len(a.Lhs) == 1 && src(a.Lhs[0]) == "hostProxy.FlushInterval" {
+				if v, ok := evalInt(constEnv{}, a.Rhs[0]); ok {
+					fi = v
+				}
+			}
+			return true
+		})
+		if fi < 0 {
+			fail("%s: hostProxy.FlushInterval is no longer set to a constant", rel)
+		}
+		emitInt("agent_flushInterval", fi, rel+" hostProxy.FlushInterval (ns)")
+		rel = "agent/utils/utils.go"
+		f = parseFile(rel)
+		nf := mustFunc(f, rel, "", "NewResponseForwarder")
+		forced := strings.Contains(src(nf), "resp.TransferEncoding = []string{\"chunked\"}")
+		direct := strings.Contains(src(nf), "resp.Write(proxyWriter)")
+		fmt.Fprintf(&sb, "def utils_forwarderForcesChunked : Bool := %v  -- %s: resp.TransferEncoding = []string{\"chunked\"}\n", forced, rel)
+		fmt.Fprintf(&sb, "def utils_forwarderWritesToPipe : Bool := %v  -- %s: the serialiser writes straight into the upload pipe\n", direct, rel)
+		wr := mustFunc(f, rel, "streamingResponseWriter", "Write")
+		last := wr.Body.List[len(wr.Body.List)-1]
+		fmt.Fprintf(&sb, "def utils_srwWriteIsPipeWrite : Bool := %v  -- %s: Write ends in `return w.bodyWriter.Write(bs)`\n", src(last) == "return w.bodyWriter.Write(bs)", rel)
+	}
 	// websockets
 	{
 		rel := "agent/websockets/connection.go"
